@@ -700,6 +700,103 @@ theorem phantom_item : Item codec_phantom_decode (fun _ => Val.unit) (decode .ph
   | nil => rfl
   | cons x xs => rw [vals_cons]; unfold codec_phantom_decode; simp only [decode]; rfl
 
+/-! ### `Polynomial<T>` -/
+
+/-- the model's `Polynomial<T>` decoder body -/
+def decodePolyM (dec : List Nat → Outcome Val) (sl : Option Nat) (s : List Nat) : Outcome (List Val) :=
+  match s with
+  | [] => .err .empty
+  | ind :: rest =>
+    if s.length < ind + 1 then .err .tooShort
+    else if s.length > ind + 1 then .err .tooLong
+    else match decodeVec dec sl rest with
+      | .ok cs => if lastIsZero cs then .err .trailingZeros else .ok cs
+      | .err k => .err k
+      | .panic => .panic
+
+theorem lastIsZero_map {α : Type} (toVal : α → Val) (isz : α → Bool) (hz : ∀ a, isz a = valIsZero (toVal a)) (l : List α) :
+    lastIsZero (l.map toVal) = Option.any (fun c => isz c) l.getLast? := by
+  unfold lastIsZero
+  rw [List.getLast?_map]
+  cases l.getLast? with
+  | none => rfl
+  | some c => simp only [Option.map_some, Option.any_some, hz]
+
+/-- **`Polynomial<T>`**: regenerated `decode` = the model's polynomial case, for every coefficient codec: the length
+    indicator against the sequence length, `Vec<T>::decode` of the rest, rejection of a trailing zero coefficient -/
+theorem gen_poly_decode {ε α : Type} (sl : Option Nat) (T_decode : List Nat → Res ε α) (into : ε → DynErr) (isz : α → Bool)
+    (toVal : α → Val) (dec : List Nat → Outcome Val) (h : Item T_decode toVal dec)
+    (hz : ∀ a, isz a = valIsZero (toVal a)) (r : List Nat) (hw : Words r) :
+    obsR (List.map toVal) (codec_poly_decode sl T_decode into isz r) = obsM (decodePolyM dec sl (vals r)) := by
+  cases r with
+  | nil => unfold codec_poly_decode decodePolyM; rfl
+  | cons x rest =>
+    obtain ⟨hx, hr⟩ := Words_tail x rest hw
+    have key := gen_vec_decode sl T_decode into toVal dec h rest hr
+    have hv : bfe_value x < 18446744069414584321 := TF.BF.value_lt x hx
+    rw [vals_cons]
+    have hint : TF.RustStd.int_try_from 18446744073709551616 (conv_bfe_value x) = .ok (bfe_value x) := by
+      unfold conv_bfe_value TF.RustStd.int_try_from
+      revert hv
+      generalize bfe_value x = v
+      intro hv
+      rw [if_pos (by omega)]
+    have hok : conv_bfe_value_ok x = true := TF.BF.value_ok x
+    unfold codec_poly_decode decodePolyM
+    simp only [List.isEmpty_cons, Bool.false_eq_true, if_false, List.getElem?_cons_zero, List.length_cons,
+      List.drop_succ_cons, List.drop_zero, vals_length]
+    rw [unwrapO_some, hok, need_true, hint]
+    revert hv
+    generalize bfe_value x = v
+    intro hv
+    simp only []
+    rw [need_decide _ _ (by omega)]
+    revert key
+    generalize codec_vec_decode sl T_decode into rest = L
+    generalize decodeVec dec sl (vals rest) = M
+    intro key
+    rcases Nat.lt_trichotomy (rest.length + 1) (v + 1) with hlt | heq | hgt
+    · rw [if_pos hlt, Nat.compare_eq_lt.2 hlt]; rfl
+    · rw [if_neg (by omega), if_neg (by omega), Nat.compare_eq_eq.2 heq]
+      simp only []
+      rw [need_decide _ _ (by omega)]
+      cases L with
+      | ok l =>
+        cases M with
+        | ok cs =>
+          simp only [obsR, obsM, Obs.ok.injEq] at key
+          rw [call_ok, tryQ_ok, ← key]
+          simp only []
+          rw [lastIsZero_map toVal isz hz l]
+          cases Option.any (fun c => isz c) l.getLast? <;> rfl
+        | err k => simp [obsR, obsM] at key
+        | panic => simp [obsR, obsM] at key
+      | err e => cases M <;> first | rfl | (simp [obsR, obsM] at key)
+      | panic => cases M <;> first | rfl | (simp [obsR, obsM] at key)
+    · rw [if_neg (by omega), if_pos hgt, Nat.compare_eq_gt.2 hgt]; rfl
+
+theorem poly_item {ε α : Type} (t : Ty) (T_decode : List Nat → Res ε α) (into : ε → DynErr) (isz : α → Bool) (toVal : α → Val)
+    (h : Item T_decode toVal (decode t)) (hz : ∀ a, isz a = valIsZero (toVal a)) :
+    Item (codec_poly_decode (staticLength t) T_decode into isz) (fun l => Val.list (l.map toVal)) (decode (.poly t)) := by
+  intro r hw
+  have key := gen_poly_decode (staticLength t) T_decode into isz toVal (decode t) h hz r hw
+  have := obsR_comp (List.map toVal) Val.list _ _ key
+  rw [this]
+  cases hr : vals r with
+  | nil => rfl
+  | cons ind rest =>
+    simp only [decode, decodePolyM]
+    by_cases h1 : (ind :: rest).length < ind + 1
+    · rw [if_pos h1, if_pos h1]; rfl
+    · rw [if_neg h1, if_neg h1]
+      by_cases h2 : (ind :: rest).length > ind + 1
+      · rw [if_pos h2, if_pos h2]; rfl
+      · rw [if_neg h2, if_neg h2]
+        cases decodeVec (fun c => decode t c) (staticLength t) rest with
+        | ok cs => simp only [Outcome.map]; cases lastIsZero cs <;> rfl
+        | err k => rfl
+        | panic => rfl
+
 /-! ### what `Item` transfers -/
 
 theorem item_ok {ε α : Type} {G : List Nat → Res ε α} {toVal : α → Val} {dec : List Nat → Outcome Val} (h : Item G toVal dec)
